@@ -109,7 +109,7 @@ class Number(Operand):
 _re_ref = r'(?P<ref>[[:alpha:]_\\]+[[:alnum:]\.\_\\]*)'
 _re_sheet_id = r"""
     (?>
-        '((?P<directory>[^\[]+)?\/?\[(?P<filename>[^\[\]]+)\])?
+        '((?P<directory>(?>''|[^\['])+)?\/?\[(?P<filename>[^\[\]]+)\])?
          (?P<sheet>(?>''|[^\?*\/\[\]':\\])+)?'
     |
         (\[(?P<excel_id>[0-9]+)\])(?P<sheet>(?>''|[^\?!*\/\[\]':"])+)?
